@@ -128,6 +128,18 @@ def cases(rng, tier):
                        data=O("[" + ", ".join("[" + VL.spec_format(x) + "]" for x in xs) + "]"))
             yield Case(program=render(bi('ㅁㄷ', le, fundef(bi('ㅁㄹ', arg(0), arg(0))))), tag='map-mixed-equal', monitor='c12_expect',
                        data=O("[" + ", ".join("[" + VL.spec_format(x) + ", " + VL.spec_format(x) + "]" for x in xs) + "]"))
+        # concatenation of operands that are *shared* and have already been printed / compared / used as keys: the result is
+        # a new value with its own printed form and key (seeded change S12j built it as a shallow copy of the first operand,
+        # memo fields included)
+        if rng.random() < 0.4:
+            ys = rand_seq(rng, kind, 5) or rand_seq(rng, kind, 5)
+            ye = seq_expr(kind, ys)
+            X, Y, CAT = "ㄱㅇㄱ", "ㄴㅇㄱ", "(ㄱㅇㄱ ㄴㅇㄱ ㄷㅎㄷ)"
+            fx, fy, fxy = fmt_seq(kind, items), fmt_seq(kind, ys), fmt_seq(kind, items + ys)
+            same = 'True' if len(ys) == 0 else 'False'
+            body = f"{X} {Y} {CAT} ({X} {X} ㄴㅎㄷ) ({CAT} {X} ㄴㅎㄷ) ({X} ({X} ㄴ ㅅㅈㅎㄷ) ㅎㄴ) {CAT} ({CAT} ㅈㄷㅎㄴ) ㅁㄹㅎ{gen.enc(8)}"
+            yield Case(program=f"({render(se)}) ({render(ye)}) ({body} ㅎ) ㅎㄷ", tag='concat-shared-memo', monitor='c12_expect',
+                       data=O(f"[{fx}, {fy}, {fxy}, True, {same}, 1, {fxy}, {len(items) + len(ys)}]"))
         if kind == 'list':
             k = rng.randint(-3, 9)
             # map / filter preserve order
